@@ -163,7 +163,12 @@ class C15(Prop):
                    "the join mechanism is the link relation model-checked in MC_Links"]
 
     def gen_case(self, rng, k, tier):
-        case = case_from_cfg(rng, counters_cfg(rng, tier))
+        cfg = counters_cfg(rng, tier)
+        if k % 4 == 2:
+            cfg.kdelay = (-3, -2, 0, 0, 1)       # host / device clock skew: an activity may be stamped BEFORE its launch call begins (delay 0, row kept)
+        if k % 8 == 5:
+            cfg.per_rank = {0: {"p_mem": 1.0, "p_launch": 0.9}}     # a rank whose only launches are copies / memsets
+        case = case_from_cfg(rng, cfg)
         n = len(case["ranks"])
         case["req"] = rng.sample(range(n), rng.randint(1, n))       # any order
         case["mem"] = rng.random() < 0.5
